@@ -96,7 +96,7 @@ Step == /\ phase = "plan"
         /\ UNCHANGED <<kind, thr, ds>>
 
 Next == AddBlock \/ Start \/ Step
-Spec == Init /\ [][Next]_vars /\ WF_vars(Start) /\ WF_vars(Step)
+Spec == Init /\ [][Next]_vars /\ WF_vars(AddBlock) /\ WF_vars(Start) /\ WF_vars(Step)
 
 (* ---------------- C30 on the algorithm ---------------- *)
 (* every plan the algorithm returns satisfies the per-plan clauses *)
@@ -124,11 +124,14 @@ Multisets(S, n) ==
          prev \cup UNION { { Append(s, sh) : sh \in { x \in S : IF s = <<>> THEN TRUE ELSE ShapeLeq(s[Len(s)], x) } } :
                             s \in { x \in prev : Len(x) = n - 1 } }
 FlagShapes == { Shape(iv[1], iv[2], nc, tomb, failed, isz) :
-                  iv \in Intervals, nc \in (IF MaxNC > 0 THEN BOOLEAN ELSE {FALSE}), tomb \in TombVals,
+                  iv \in Intervals, nc \in BOOLEAN, tomb \in TombVals,
                   failed \in (IF MaxFailed > 0 THEN BOOLEAN ELSE {FALSE}), isz \in Sizes }
+CaseFlagsOK(s) == /\ Count(s, LAMBDA b : b.nc) <= Max2(MaxNC, 1)
+                  /\ Count(s, LAMBDA b : b.tomb > 0) <= MaxTomb
+                  /\ Count(s, LAMBDA b : b.failed) <= MaxFailed
 CaseLayouts ==
     { s \in Multisets(PlainShapes, CaseBlocks) : s # <<>> }
-    \cup { s \in Multisets(FlagShapes, CaseFlagBlocks) : s # <<>> /\ FlagsOK(s) }
+    \cup { s \in Multisets(FlagShapes, CaseFlagBlocks) : s # <<>> /\ CaseFlagsOK(s) }
 CaseSeq == SetToSeq({ [ranges |-> Ranges, blocks |-> s, kind |-> m.kind, thr |-> m.thr, ds |-> m.ds] : s \in CaseLayouts, m \in Modes })
 ASSUME ndJsonSerialize(CasesFile, CaseSeq)
 =============================================================================
